@@ -63,6 +63,10 @@ def strata(tier):
              "bases": ["/a/b", "/b/"], "shards": 1},
             {"name": "windows syntax: aA\\/.*^3 x aA\\/.^4 (letter case, both separators)", "pa": "aA\\/.*", "ta": "aA\\/.", "pn": 3, "tn": 4,
              "bases": ["", "/B"], "shards": 1, "syntax": "windows"},
+            # longer strings over a tiny alphabet: several wildcards of both kinds in one pattern ('*' left of '**' and the other
+            # way round) against paths in which the same segment occurs several times - every alignment has to be tried
+            {"name": "a/*^6 x a/^7 (several wildcards of both kinds, repeated segments)", "pa": "a/*", "ta": "a/", "pn": 6, "tn": 7,
+             "bases": [""], "shards": 2},
         ]
     return [
         {"name": "ab./*?^5 x ab./^5", "pa": "ab./*?", "ta": "ab./", "pn": 5, "tn": 5, "bases": ["", "/b"], "shards": 5},
@@ -70,6 +74,8 @@ def strata(tier):
          "bases": ["/a/b", "/b/"], "shards": 4},
         {"name": "windows syntax: aA\\/.*^4 x aA\\/.^4 (letter case, both separators)", "pa": "aA\\/.*", "ta": "aA\\/.", "pn": 4, "tn": 4,
          "bases": ["", "/B"], "shards": 3, "syntax": "windows"},
+        {"name": "a/*^7 x a/^9 (several wildcards of both kinds, repeated segments)", "pa": "a/*", "ta": "a/", "pn": 7, "tn": 9,
+         "bases": [""], "shards": 6},
     ]
 
 
